@@ -472,7 +472,7 @@ pub fn rand_file(rng: &mut Rng, used: &mut Vec<String>, max_len: usize) -> FileC
         link,
         // (what `rpm -V` is to check is the packager's business; what the package records about the file is not)
         verify: if rng.chance(1, 6) { Some(*rng.pick(&[0u32, 0xFFFF_FFFE, 0x0000_00F2, 0x0000_0001, 0x0000_01FF])) } else { None },
-        mtime: *rng.pick(&[0u32, 1, 1_000_000_000, 1_599_999_999, 1_600_000_000, 1_600_000_001, 1_700_000_000, 2_000_000_000]),
+        mtime: *rng.pick(&[0u32, 1, 1_000_000_000, 1_599_999_999, 1_600_000_000, 1_600_000_001, 1_700_000_000, 2_000_000_000, 2_147_483_647, 2_147_483_648, 4_000_000_000]),
     }
 }
 
